@@ -156,6 +156,21 @@ fn slot_enter<C: Case>(stage: &'static str, kind: &'static str, c: &C) {
     s[idx] = Some(Slot { started: Instant::now(), stage, kind, case });
 }
 
+/// between two cases: the strategy is producing the next one (generators may call the crate for probe
+/// encodes; if such a call does not return, the watchdog must see it)
+fn slot_generating(stage: &'static str) {
+    let case: Box<dyn Fn() -> Value + Send> = Box::new(|| json!({"note": "no case: the generator of the next case was running (a probe call of the crate inside a generator did not return)"}));
+    let mut s = slots().lock().unwrap();
+    let idx = MY_SLOT.with(|m| {
+        if m.get() == usize::MAX {
+            s.push(None);
+            m.set(s.len() - 1);
+        }
+        m.get()
+    });
+    s[idx] = Some(Slot { started: Instant::now(), stage, kind: "generator", case });
+}
+
 fn slot_leave() {
     let mut s = slots().lock().unwrap();
     let idx = MY_SLOT.with(|m| m.get());
@@ -268,6 +283,10 @@ pub fn start_watchdog(ctx: Arc<Ctx>) {
                 let (rule, assumptions) = ctx.meta.get().copied().unwrap_or(("", &[]));
                 let code = ctx.finish(rule, assumptions, Map::new());
                 std::process::exit(code);
+            }
+            if kind == "generator" {
+                println!("INCONCLUSIVE property={} a generator of stage {} did not produce its next case within {} s (a probe call of the crate inside the generator does not return){}", ctx.property, stage, WATCHDOG_SECS, if memory { " / memory budget exceeded" } else { "" });
+                std::process::exit(2);
             }
             let path = ctx.write_replay(&stage, &kind, &case, if memory { "the checker exceeded its memory budget while this case was running (suspected unbounded allocation)" } else { "single case exceeded the watchdog limit (suspected hang)" }, "watchdog");
             if ctx.termination_is_property {
@@ -641,13 +660,15 @@ impl Ctx {
                     let mut runner = TestRunner::new(cfg);
                     let local = RefCell::new(Stats::default());
                     let failed = Cell::new(false);
+                    slot_generating(stage);
                     let res = runner.run(&make(), |c: C| {
                         if self.stop.load(Ordering::SeqCst) || (stage_stop.load(Ordering::SeqCst) && !failed.get()) {
+                            slot_generating(stage);
                             return Ok(());
                         }
                         slot_enter(stage, kind, &c);
                         let v = guard(|| check(&c));
-                        slot_leave();
+                        slot_generating(stage);
                         match v {
                             Ok(Verdict::Pass(p)) => {
                                 if !failed.get() {
@@ -677,6 +698,7 @@ impl Ctx {
                             }
                         }
                     });
+                    slot_leave();
                     self.stats.lock().unwrap().merge(local.into_inner());
                     match res {
                         Ok(()) => {}
